@@ -84,7 +84,7 @@ func main() {
 	tablesDir = filepath.Join(*verif, "tables")
 	if *genFuncs {
 		tablesDir = ""
-		var inv []funcRecord
+		var inv inventoryFile
 		for _, spec := range []struct {
 			rels []string
 			goos string
@@ -100,14 +100,15 @@ func main() {
 					pk[rel] = p
 				}
 			}
-			inv = append(inv, functionInventory(pk)...)
+			inv.Functions = append(inv.Functions, functionInventory(pk)...)
+			inv.Structs = append(inv.Structs, structInventory(pk)...)
 		}
 		b, _ := json.MarshalIndent(inv, "", " ")
 		if err := os.WriteFile(filepath.Join(*verif, "tables", "functions.json"), b, 0o644); err != nil {
 			fmt.Println("ERROR:", err)
 			os.Exit(2)
 		}
-		fmt.Printf("wrote %d function records\n", len(inv))
+		fmt.Printf("wrote %d function records, %d struct records\n", len(inv.Functions), len(inv.Structs))
 		return
 	}
 	if *list {
